@@ -308,7 +308,25 @@ func runC04(c *fw.Ctx) {
 	os.MkdirAll(dir, 0o755)
 	c.Cases("parsefile", c.N(200, 30000), false, func(i int, r *rng.R) {
 		var text string
-		if r.Chance(2, 3) {
+		if i%25 == 7 {
+			// large files: single lines around the usual buffer sizes (4 KiB, 64 KiB, 1 MiB) and many short lines
+			size := []int{4095, 4096, 4097, 65535, 65536, 65537, 70000, 200000, 1 << 20, 1<<20 + 1}[(i/25)%10]
+			var b strings.Builder
+			b.WriteString("{\"big\":[")
+			sep := ","
+			if (i/250)%2 == 1 {
+				sep = ",\n"
+			}
+			for j := 0; b.Len() < size; j++ {
+				if j > 0 {
+					b.WriteString(sep)
+				}
+				fmt.Fprintf(&b, "%d", j)
+			}
+			b.WriteString("],\"s\":\"" + strings.Repeat("x", size/3) + "\"}")
+			text = b.String()
+			c.Count("parsefile_large_files")
+		} else if r.Chance(2, 3) {
 			tree := genDocTree(r, spec.Obj, r.Range(1, 4), r.Range(1, 5))
 			st := randStyle(r)
 			text = renderRoot(r, tree, st, true)
@@ -528,7 +546,30 @@ func firstLine(s string) string {
 	return s
 }
 
+// history probes: a few fixed inputs are re-parsed after every generated input; their outcome must never change
+// (the same input always gives the same outcome, whatever was parsed before).
+var c04Probes = []string{"[1]", "[true,null]", "{\"a\":1}", "[1.5,\"s\"]", "{\"k\":[1,{\"x\":\"y\"}]}", "[tru]", "[\"ab", "{\"a\":", "[[2]]", "[ 7 ]"}
+var c04ProbeFirst = map[string][2]parseOutcome{}
+var c04ProbeIdx int
+
+func c04HistoryProbe(c *fw.Ctx, after string) {
+	p := c04Probes[c04ProbeIdx%len(c04Probes)]
+	c04ProbeIdx++
+	now := [2]parseOutcome{doParseList(p), doParseObject(p)}
+	first, ok := c04ProbeFirst[p]
+	if !ok {
+		c04ProbeFirst[p] = now
+		return
+	}
+	c.Count("history_probes")
+	if !sameOutcome(first[0], now[0]) || !sameOutcome(first[1], now[1]) {
+		c.Violate("parse-outcome-depends-on-history", fmt.Sprintf("parse of %q after the earlier parse of %s", p, quoteBytes(after)), fmt.Sprintf("the outcome it gave the first time: %+v", first), fmt.Sprintf("%+v", now))
+		c04ProbeFirst[p] = now
+	}
+}
+
 func c04Both(c *fw.Ctx, text string) {
+	defer c04HistoryProbe(c, text)
 	c.MarkInput(text)
 	c.DistinctHash(spec.Hash(text))
 	if c.WantSample() && len(text) > 8 && len(text) < 80 {
